@@ -34,7 +34,7 @@ OBLIGATIONS = [
     chx("privkey_retrieve", "C10_h", "h_privkey_rt", timeout=T,
         desc="Retrieve._try_to_validate_privkey (async): same rule; in verify mode a bad key marks the share bad with the version's prefix"),
     chx("validate_block", "C10_h", "h_validate_block", timeout=T, bounds={"quick": {"vtier": 1}, "thorough": {"vtier": 2}},
-        cases={"quick": [_vb(*t) for t in ((1, 2, 0, 0, True, False), (2, 2, 0, 1, True, False), (2, 2, 0, 0, False, False), (2, 0, 1, 0, True, True),
+        cases={"quick": [_vb(*t) for t in ((1, 2, 0, 0, True, False), (2, 2, 0, 1, True, False), (2, 2, 0, 0, False, False), (2, 0, 1, 0, True, True), (2, 0, 0, 1, False, True), (1, 0, 0, 0, True, True), (2, 0, 2, 0, True, True),
                                            (2, 1, 0, 1, False, True), (2, 2, 2, 1, True, False), (2, 2, 3, 0, False, True), (2, 2, 1, 0, True, True))],
                "thorough": [_vb(ns, m, bs, sh, None, None) for ns in (1, 2) for m in (0, 1) for bs in (0, 1, 2, 3) for sh in (0, 1)] +
                            [_vb(ns, 2, bs, sh, md, x0) for ns in (1, 2) for bs in (0, 1, 2, 3) for sh in (0, 1)
